@@ -66,6 +66,7 @@ type Contract struct {
 	Allocates bool
 	HavocCalls       bool     // `havoccalls [except T.f, ...]` on a unit: calls of callees without contract that cannot be inlined are abstracted by whole-heap havoc
 	HavocCallsExcept []Clause
+	AbstractCalls    []string // `abstractcall f, g`: in a havoccalls unit these callees are abstracted even though they have contracts
 	HavocExceptKeys  map[string]bool // precomputed kept keys (synthetic contracts of `havoccalls`)
 	HavocAll    bool     // `havocs [except T.f, ...]`: the callee may change every heap location except the named type-level fields
 	HavocExcept []Clause
@@ -445,7 +446,7 @@ func stripSpecPrefix(line string) (string, bool) {
 
 var clauseKeywords = map[string]bool{"requires": true, "ensures": true, "modifies": true, "loop": true, "inline": true,
 	"opaque": true, "trusted": true, "abstract": true, "func": true, "lemma": true, "pure": true, "assert": true,
-	"bounded": true, "ghost": true, "noframe": true, "allocates": true, "each": true, "usebody": true, "uses": true, "hide": true, "preserves": true, "cases": true, "abstractrem": true, "trustcall": true, "havocs": true, "partial": true, "function": true, "havoccalls": true}
+	"bounded": true, "ghost": true, "noframe": true, "allocates": true, "each": true, "usebody": true, "uses": true, "hide": true, "preserves": true, "cases": true, "abstractrem": true, "trustcall": true, "havocs": true, "partial": true, "function": true, "havoccalls": true, "abstractcall": true}
 
 // ParseContracts scans a Go source file for //@ blocks.
 func ParseContracts(fset *token.FileSet, filename string, src []byte, cs *ContractSet) error {
@@ -604,6 +605,8 @@ func ParseContracts(fset *token.FileSet, filename string, src []byte, cs *Contra
 				cur.Allocates = true
 			case "partial":
 				cur.Partial = append(cur.Partial, strings.Fields(strings.ReplaceAll(rest, ",", " "))...)
+			case "abstractcall":
+				cur.AbstractCalls = append(cur.AbstractCalls, strings.Fields(strings.ReplaceAll(rest, ",", " "))...)
 			case "havoccalls":
 				cur.HavocCalls = true
 				rest = strings.TrimSpace(strings.TrimPrefix(strings.TrimSpace(rest), "except"))
